@@ -242,6 +242,24 @@ def run_driver(bdir, cases, work, tag, tz):
     return {json.loads(l)["id"]: json.loads(l) for l in p.stdout.splitlines() if l.strip()}, None
 
 
+def sentry_url_campaign(bdir, rnd, n, work):
+    """sentry.h beyond the list: sentryUrl() in its spellings (QtlJson!SentryUrl), as NOTE lines of C18"""
+    hosts = ["sentry.io", "o12345.ingest.sentry.io", "sentry.example.org", "localhost"]
+    cases = [{"host": rnd.choice(hosts), "project": str(rnd.choice([1, 42, 4505123456789])),
+              "key": "".join(rnd.choice("0123456789abcdef") for _ in range(rnd.choice([8, 32])))} for _ in range(n)]
+    inp = work / "urls.ndjson"
+    work.mkdir(parents=True, exist_ok=True)
+    inp.write_text("".join(json.dumps(c) + "\n" for c in cases))
+    p = subprocess.run([str(bdir / "drv_json"), "url", str(inp)], capture_output=True, text=True, timeout=300,
+                       env={"LC_ALL": "C.UTF-8", "PATH": "/usr/bin:/bin"})
+    inp.unlink()
+    if p.returncode != 0:
+        return 0, [{"error": p.stderr[-500:]}], n
+    events = [json.loads(l) for l in p.stdout.splitlines() if l.strip()]
+    acc, rej = validate(events, work, "urls")
+    return acc, rej, n
+
+
 def validate(events, work, tag, chunk=1500):
     accepted = 0
     rejected = []
@@ -299,6 +317,15 @@ def run(pid, tier, seed):
         rp = C.save_replay(pid, f"case_{seed}_{c.id}.json", {"kind": "obligation-violated", "case": c.to_json(), "parsed_output": ev["out"]})
         C.report_violation(pid, rp)
         viol += 1
+    url_info = None
+    if pid == "C18":
+        try:
+            u_acc, u_rej, u_n = sentry_url_campaign(bdir, rnd, 40 if tier == "quick" else 2000, work)
+            url_info = {"cases": u_n, "accepted": u_acc, "rejected": len(u_rej)}
+            if u_rej:
+                print(f"NOTE property=C18 sentry.h: {len(u_rej)} of {u_n} endpoint cases rejected by QtlJson!SentryUrl (first: {str(u_rej[0])[:300]})", flush=True)
+        except C.ToolFailure as e:
+            print("NOTE property=C18 sentry.h conformance could not run: " + str(e)[:300], flush=True)
     kinds = {}
     nontrivial = 0
     for c in cases:
@@ -322,6 +349,7 @@ def run(pid, tier, seed):
                  "; non-trivial = the text contains characters that need escaping or the message has custom attributes"),
         "exhaustive": False,
         "attribute_kind_histogram": kinds, "rejected_cases": len(rejected),
+        "beyond_the_list": {"sentry.h endpoint and headers (QtlJson!SentryUrl)": url_info},
     }, time.time() - t0, viol, [
         "TLC and the Json/IOUtils community modules are trusted",
         "syntactic validity and unescaping are decided by Python's json module (the projection), not by TLA+",
